@@ -292,6 +292,7 @@ def worldOp (st : Option DState) (op : String) (args tr : List String) : Option 
       else (some d, "rv=0")
   | "locks", _, st => (st, "locks")        -- observations of the real code only: nothing to predict
   | "rxeval", _, st => (st, "rxeval")
+  | "fault", _, st => (st, "fault")         -- the outcome under an allocation failure is judged by the monitor, not predicted
   | _, _, some d =>
     let (w, out) := worldOp1 (some d.w) op args tr
     ((w.map fun w => { d with w := w }), out)
